@@ -1,5 +1,6 @@
 import Zc.Proofs.SurviveNames
 import Zc.Proofs.SurviveApi
+import Zc.Proofs.NameTextGlue
 /-! # C15 — `RegSafe` from the API: what the validator guarantees, and where nothing does
 
 `C15_history_closed_partial` assumes `SvcSafe` of every service handed to `async_register_service` / `async_update_service`
@@ -48,19 +49,58 @@ theorem C15_nonstrict_name_refuted :
     decide +kernel
 
 /-- the text-layer identity for application-supplied names: the labels `write_name(s)` writes are the UTF-8 encodings of pieces of
-`s.split('.')` (the standing trusted glue of the composition, here for `str` → labels; `TextGlue` is its wire → `str` → labels twin) -/
-def TextGlueS : Prop := ∀ s : String, ∀ l ∈ labelsOfText s, ∃ piece ∈ splitDot s.toList, l.length = utf8Len piece
+`s.split('.')`.  Formerly a named hypothesis; with the text layer modelled (`Zc.NameText`, wp-TEXTGLUE) it is the theorem `textGlueS`. -/
+def TextGlueS : Prop := ∀ s : String, ∀ l ∈ labelsOfText s, ∃ piece ∈ Name.splitDot s.toList, l.length = Name.utf8Len piece
+
+/-- C19's `split('.')` is the text layer's -/
+theorem nameSplitDot_eq (s : Str) : Name.splitDot s = NameText.splitDot s := by
+  unfold NameText.splitDot
+  induction s with
+  | nil => rfl
+  | cons c r ih =>
+    unfold Name.splitDot NameText.splitOn
+    rw [ih]
+    by_cases hc : c = '.'
+    · subst hc; simp [NameText.dot]
+    · simp only [hc, NameText.dot, if_false]
+      cases NameText.splitOn '.' r <;> rfl
+
+/-- C19's `len(s.encode('utf-8'))` is the length of the text layer's encoding -/
+theorem nameUtf8Len_eq (s : Str) : Name.utf8Len s = (NameText.encodeText s).length := by
+  unfold NameText.encodeText
+  rw [Survive.encode_length]
+  induction s with
+  | nil => rfl
+  | cons c r ih => simp only [Name.utf8Len, List.map_cons, List.sum_cons, Utf8.encLen, ih]
+
+/-- **`TextGlueS` holds**: dropping one trailing dot only drops the final empty piece -/
+theorem textGlueS : TextGlueS := by
+  intro s l hl
+  unfold labelsOfText NameText.labelsOfText at hl
+  obtain ⟨piece, hp, rfl⟩ := List.mem_map.mp hl
+  refine ⟨piece, ?_, (nameUtf8Len_eq piece).symm⟩
+  rw [nameSplitDot_eq]
+  unfold NameText.stripTrailingDot at hp
+  split at hp
+  · rename_i hdot
+    obtain ⟨t, ht⟩ := (NameText.endsWithDot_iff s.toList).mp hdot
+    rw [ht, List.dropLast_concat] at hp
+    rw [ht]
+    show piece ∈ NameText.splitOn NameText.dot (t ++ [NameText.dot])
+    rw [show t ++ [NameText.dot] = t ++ NameText.dot :: [] from rfl, NameText.splitOn_append_sep]
+    exact List.mem_append_left _ hp
+  · exact hp
 
 /-- **the name part of `SvcSafe` follows from the validator in strict mode**: a service that passed the name check of
 `async_register_service(strict=True)` has an instance name all of whose labels the encoder accepts -/
-theorem C15_registered_name_encodable (glue : TextGlueS) (s : Svc) (h : checkName s true = .ok ()) :
+theorem C15_registered_name_encodable (s : Svc) (h : checkName s true = .ok ()) :
     ∀ l ∈ labelsOfText s.name, l.length ≤ 63 := by
   unfold checkName at h
   split at h
   · cases h
   · rename_i t ht
     intro l hl
-    obtain ⟨piece, hp, hlen⟩ := glue s.name l hl
+    obtain ⟨piece, hp, hlen⟩ := textGlueS s.name l hl
     rw [hlen]
     exact C15_strict_name_labels_short _ t ht piece hp
 
@@ -83,16 +123,16 @@ theorem C15_server_not_validated (lower : String → String) {υ : Type} (d : CS
 /-- a 64-byte label (`h` × 64) in front of `local` -/
 def longHost : Wire.WName := [List.replicate 64 104, [108, 111, 99, 97, 108]]
 
-/-- **an unencodable server name falsifies `SvcSafe`** (under the text-layer identity): the SRV record's target has a 64-byte label.
+/-- **an unencodable server name falsifies `SvcSafe`** (by the text-layer identity `textGlue`): the SRV record's target has a 64-byte label.
 Together with `C15_server_not_validated`: the API accepts services that violate the data invariant of C15's survival theorems. -/
-theorem C15_unencodable_server_refuted (glue : TextGlue) (lower : String → String) (ettl : Nat) (s : Svc)
+theorem C15_unencodable_server_refuted (lower : String → String) (ettl : Nat) (s : Svc)
     (hs : s.server = textOfName longHost) : ¬ SvcSafe lower ettl s := by
   intro h
   have hsrv : RespSpec.srvOf s ∈ RespSpec.own lower ettl s := by simp [RespSpec.own]
   have := (h _ hsrv).2.2.2.2
   simp only [wireOfRec, RespSpec.srvOf, RDataSafe] at this
   have hlab := this.2.2.2.1
-  rw [hs, glue longHost] at hlab
+  rw [hs, textGlue longHost] at hlab
   have hbad : ∃ l ∈ reencName longHost, ¬ l.length ≤ 63 := by decide +kernel
   obtain ⟨l, hl, hn⟩ := hbad
   exact hn (hlab l hl)
